@@ -30,7 +30,7 @@ SUITES = {
     "C03": [("c03", ("check", ""))],
     "C04": [("c14", ("panic", "")), ("c01", ("panic", "")), ("c03", ("panic", "")), ("c02", ("panic", "")), ("c08", ("panic", "")), ("c16", ("panic", "")), ("c07", ("panic", "")), ("c09", ("panic", "")), ("c01d", ("panic", "")), ("c02d", ("panic", "")), ("c02e", ("panic", ""))],
     "C07": [("c07", ("check", "meaning:"))],
-    "C08": [("c08", ("check", "bounds:"))],
+    "C08": [("c08", ("check", "bounds:")), ("c16", ("check", "bounds:"))],
     "C13": [("c07", ("check", "normalize:"))],
     "C09": [("c09", ("check", "zone:"))],
     "C14": [("c14", ("check", ""))],
